@@ -124,8 +124,106 @@ def _functions(tree: ast.Module, modname: str):  # noqa: ANN202
     yield from rec(tree.body, modname)
 
 
+def _callfree(e: ast.AST) -> bool:
+    return not any(isinstance(n, (ast.Call, ast.Await, ast.Yield, ast.YieldFrom, ast.NamedExpr)) for n in ast.walk(e))
+
+
+def _neg(t: ast.expr) -> ast.expr:
+    if isinstance(t, ast.UnaryOp) and isinstance(t.op, ast.Not):
+        return t.operand
+    if isinstance(t, ast.Compare) and len(t.ops) == 1:
+        flip = {ast.Eq: ast.NotEq, ast.NotEq: ast.Eq, ast.Is: ast.IsNot, ast.IsNot: ast.Is, ast.In: ast.NotIn, ast.NotIn: ast.In}
+        if type(t.ops[0]) in flip:
+            return ast.copy_location(ast.Compare(left=t.left, ops=[flip[type(t.ops[0])]()], comparators=t.comparators), t)
+    return ast.copy_location(ast.UnaryOp(op=ast.Not(), operand=t), t)
+
+
+def _u(e: ast.AST) -> str:
+    try:
+        return ast.unparse(e)
+    except Exception:  # noqa: BLE001
+        return ast.dump(e)
+
+
+def tests_and_compares(fn: ast.AST) -> tuple[set[str], set[str]]:
+    tests: set[str] = set()
+    cmps: set[str] = set()
+    for n in _own(fn):
+        if isinstance(n, (ast.If, ast.IfExp, ast.While)):
+            tests.add(_u(n.test))
+        if isinstance(n, ast.Compare) and len(n.ops) == 1 and isinstance(n.ops[0], (ast.Eq, ast.NotEq)):
+            cmps.add(_u(n))
+    return tests, cmps
+
+
+shapes: dict[str, dict[str, list[str]]] = {}
+
+
+def body_digest(fn: ast.AST) -> str:
+    """Spelling-free digest of a function: parameters and body with locals, parameters and its own name blanked."""
+    import copy
+    import hashlib
+    names = {nm for nm, _s in bindings(fn)} | _params(fn) | {fn.name}  # type: ignore[attr-defined]
+    body = [_Blank(names).visit(copy.deepcopy(st)) for st in fn.body]  # type: ignore[attr-defined]
+    if body and isinstance(body[0], ast.Expr) and isinstance(body[0].value, ast.Constant) and isinstance(body[0].value.value, str):
+        body = body[1:]
+    txt = f'{len(_params(fn))}|' + '|'.join(ast.dump(st) for st in body).replace(f"attr='{fn.name}'", "attr='§'")  # type: ignore[attr-defined]
+    return hashlib.sha1(txt.encode()).hexdigest()[:16]
+
+
+def restore_private_names(trees: dict[str, ast.Module], inventory: set[str], log: list[str]) -> None:
+    # renamed functions may call each other: repeat until nothing more is recognised
+    for _ in range(4):
+        n0 = len(log)
+        _restore_private_once(trees, inventory, log)
+        if len(log) == n0:
+            break
+
+
+def _restore_private_once(trees: dict[str, ast.Module], inventory: set[str], log: list[str]) -> None:
+    """A private function (leading underscore) of the inventory that is missing while a new function with the same
+    digest sits in the same scope was renamed: give it (and every reference by that name) the inventory name back."""
+    table()
+    priv = _SHAPES.get('private', {})
+    if not priv:
+        return
+    present: dict[str, ast.AST] = {}
+    for mod, tree in trees.items():
+        for q, node in _functions(tree, mod):
+            present[q] = node
+    # inventory names are relative to the package ('layers.base.X.f'); ours carry the 'kfac.' prefix
+    def short(q: str) -> str:  # noqa: E306
+        return q[5:] if q.startswith('kfac.') else q
+    renames: dict[str, str] = {}
+    for q, dg in priv.items():
+        if q in present:
+            continue
+        scope = q.rsplit('.', 1)[0]
+        cands = [(q2, n2) for q2, n2 in present.items() if q2.rsplit('.', 1)[0] == scope and q2 not in inventory and short(q2) not in inventory and q2 not in priv
+                 and body_digest(n2) == dg]
+        if len(cands) == 1:
+            q2, n2 = cands[0]
+            new, old = n2.name, q.rsplit('.', 1)[1]  # type: ignore[attr-defined]
+            if new not in renames and old not in {x.rsplit('.', 1)[1] for x in present}:
+                renames[new] = old
+                log.append(f'{q2}: private function renamed back to its inventory name {old}')
+    if not renames:
+        return
+    for tree in trees.values():
+        for n in ast.walk(tree):
+            if isinstance(n, (ast.FunctionDef, ast.AsyncFunctionDef)) and n.name in renames:
+                n.name = renames[n.name]
+            elif isinstance(n, ast.Attribute) and n.attr in renames:
+                n.attr = renames[n.attr]
+            elif isinstance(n, ast.Name) and n.id in renames:
+                n.id = renames[n.id]
+            elif isinstance(n, ast.alias) and n.name in renames:
+                n.name = renames[n.name]
+
+
 def build(root: str) -> dict[str, list[list[str]]]:
     out: dict[str, list[list[str]]] = {}
+    shapes.clear()
     pkg = os.path.join(root, 'kfac')
     for dirpath, dirnames, files in os.walk(pkg):
         dirnames[:] = sorted(d for d in dirnames if d != '__pycache__')
@@ -141,18 +239,28 @@ def build(root: str) -> dict[str, list[list[str]]]:
                 b = bindings(node)
                 if b:
                     out[q] = [[n, s] for n, s in b]
+                if node.name.startswith('_') and not node.name.startswith('__') and '<locals>' not in q:
+                    shapes.setdefault('private', {})[q] = body_digest(node)
+                t, c = tests_and_compares(node)
+                if t:
+                    shapes.setdefault('tests', {})[q] = sorted(t)
+                if c:
+                    shapes.setdefault('compares', {})[q] = sorted(c)
     return out
 
 
 _TABLE: dict | None = None
+_SHAPES: dict = {}
 
 
 def table() -> dict[str, list[list[str]]]:
-    global _TABLE
+    global _TABLE, _SHAPES
     if _TABLE is None:
         try:
             with open(KNOWN) as fh:
-                _TABLE = json.load(fh)['functions']
+                d = json.load(fh)
+                _TABLE = d['functions']
+                _SHAPES = {'tests': d.get('tests', {}), 'compares': d.get('compares', {}), 'private': d.get('private', {})}
         except FileNotFoundError:
             _TABLE = {}
     return _TABLE
@@ -214,25 +322,174 @@ def restore(tree: ast.Module, modname: str, log: list[str]) -> None:
         all_names = {x.id for x in ast.walk(node) if isinstance(x, ast.Name)} | _params(node)
         sm = difflib.SequenceMatcher(None, [k[1] for k in known], [s for _n, s in cur], autojunk=False)
         mapping: dict[str, str] = {}
+        pairs: list[tuple[int, int]] = []
+        pa = pb = 0
         for a, b, size in sm.get_matching_blocks():
-            for i in range(size):
-                kn, cn = known[a + i][0], cur[b + i][0]
-                if kn == cn:
-                    continue
-                # only a genuinely new spelling is mapped back, and only onto a name that is free in this function
-                if cn in known_names or kn in all_names or kn in mapping.values():
-                    continue
-                mapping[cn] = kn
+            # the gap before this block: bindings whose defining expression changed too; paired in order when the
+            # binding kinds agree (a capture-free renaming is behaviour-preserving whatever it is paired with)
+            ga, gb = list(range(pa, a)), list(range(pb, b))
+            if ga and len(ga) == len(gb) and all(known[x][1].split(':', 1)[0] == cur[y][1].split(':', 1)[0] for x, y in zip(ga, gb)):
+                pairs += list(zip(ga, gb))
+            pairs += [(a + i, b + i) for i in range(size)]
+            pa, pb = a + size, b + size
+        for ai, bi in pairs:
+            kn, cn = known[ai][0], cur[bi][0]
+            if kn == cn:
+                continue
+            # only a genuinely new spelling is mapped back, and only onto a name that is free in this function
+            if cn in known_names or kn in all_names or kn in mapping.values():
+                continue
+            mapping[cn] = kn
         if mapping:
             r = _Rename(mapping)
             node.body = [r.visit(st) for st in node.body]
             log.append(f'{q}: locals {sorted(mapping.items())} restored to their inventory names')
+    for q, node in list(_functions(tree, modname)):
+        _restore_shapes(q, node, log)
+        if q in tab or q in _inventory():
+            _inline_new_temps(q, node, {k[0] for k in tab.get(q, [])}, log)
+
+
+_INV: set[str] | None = None
+
+
+def _inventory() -> set[str]:
+    global _INV
+    if _INV is None:
+        try:
+            with open(os.path.join(os.path.dirname(KNOWN), 'known_api.json')) as fh:
+                _INV = set(json.load(fh)['functions'])
+        except FileNotFoundError:
+            _INV = set()
+    return _INV
+
+
+class _Repl(ast.NodeTransformer):
+    def __init__(self, name: str, val: ast.expr) -> None:
+        self.name, self.val = name, val
+
+    def visit_Name(self, n: ast.Name) -> ast.AST:  # noqa: N802
+        return self.val if n.id == self.name and isinstance(n.ctx, ast.Load) else n
+
+
+def _inline_new_temps(q: str, fn: ast.AST, known_names: set[str], log: list[str]) -> None:
+    """N8: a local that is not in the inventory of this function, assigned once and read once in the statement that
+    follows (an extracted temporary), is substituted back into that statement."""
+    params = _params(fn)
+    count: dict[str, int] = {}
+    for n in ast.walk(fn):
+        if isinstance(n, ast.Name):
+            count[n.id] = count.get(n.id, 0) + 1
+    done = []
+    changed = True
+    while changed:
+        changed = False
+        for owner in [fn] + [n for n in _own(fn) if not isinstance(n, (ast.FunctionDef, ast.AsyncFunctionDef, ast.ClassDef))]:
+            for fld in ('body', 'orelse', 'finalbody'):
+                blk = getattr(owner, fld, None)
+                if not (isinstance(blk, list) and blk and isinstance(blk[0], ast.stmt)):
+                    continue
+                for i in range(len(blk) - 1):
+                    st, nx = blk[i], blk[i + 1]
+                    if not (isinstance(st, ast.Assign) and len(st.targets) == 1 and isinstance(st.targets[0], ast.Name)):
+                        continue
+                    v = st.targets[0].id
+                    if v in known_names or v in params or count.get(v) != 2:
+                        continue
+                    # the single read: in the header of the next statement (not in a body executed repeatedly / later)
+                    if isinstance(nx, (ast.Assign, ast.AugAssign, ast.AnnAssign, ast.Expr, ast.Return, ast.Raise, ast.Assert, ast.Delete)):
+                        scope: list[ast.AST] = [nx]
+                    elif isinstance(nx, ast.If):
+                        scope = [nx.test]
+                    elif isinstance(nx, (ast.For, ast.AsyncFor)):
+                        scope = [nx.iter]
+                    elif isinstance(nx, ast.With):
+                        scope = [it.context_expr for it in nx.items]
+                    else:
+                        continue
+                    reads = [x for sc in scope for x in ast.walk(sc) if isinstance(x, ast.Name) and x.id == v and isinstance(x.ctx, ast.Load)]
+                    inner = [x for sc in scope for y in ast.walk(sc) if isinstance(y, (ast.Lambda, ast.ListComp, ast.SetComp, ast.DictComp, ast.GeneratorExp))
+                             for x in ast.walk(y) if isinstance(x, ast.Name) and x.id == v]
+                    if len(reads) != 1 or inner:
+                        continue
+                    r = _Repl(v, st.value)
+                    if isinstance(nx, ast.If):
+                        nx.test = r.visit(nx.test)
+                    elif isinstance(nx, (ast.For, ast.AsyncFor)):
+                        nx.iter = r.visit(nx.iter)
+                    elif isinstance(nx, ast.With):
+                        for it in nx.items:
+                            it.context_expr = r.visit(it.context_expr)
+                    else:
+                        blk[i + 1] = r.visit(nx)
+                    del blk[i]
+                    count[v] = 0
+                    done.append(v)
+                    changed = True
+                    break
+                if changed:
+                    break
+            if changed:
+                break
+    if done:
+        log.append(f'{q}: new single-use temporaries {done} substituted into the statement that reads them')
+
+
+def _restore_shapes(q: str, node: ast.AST, log: list[str]) -> None:
+    """Orientation of ==/!= comparisons and polarity of if/else, as recorded for the inventory function."""
+    kc = set(_SHAPES.get('compares', {}).get(q, []))
+    kt = set(_SHAPES.get('tests', {}).get(q, []))
+    if not kc and not kt:
+        return
+    n_c = n_t = 0
+    for n in list(_own(node)):
+        if kc and isinstance(n, ast.Compare) and len(n.ops) == 1 and isinstance(n.ops[0], (ast.Eq, ast.NotEq)) and _u(n) not in kc \
+                and _callfree(n.left) and _callfree(n.comparators[0]):
+            fl = ast.Compare(left=n.comparators[0], ops=n.ops, comparators=[n.left])
+            alt = ast.Compare(left=n.comparators[0], ops=[ast.NotEq() if isinstance(n.ops[0], ast.Eq) else ast.Eq()], comparators=[n.left])
+            if _u(fl) in kc or (_u(alt) in kc and _u(_neg(n)) not in kc):
+                n.left, n.comparators = n.comparators[0], [n.left]
+                n_c += 1
+    for n in list(_own(node)):
+        if kt and isinstance(n, (ast.If, ast.IfExp)) and _u(n.test) not in kt and _u(_neg(n.test)) in kt:
+            if isinstance(n, ast.IfExp):
+                n.test, n.body, n.orelse = _neg(n.test), n.orelse, n.body
+                n_t += 1
+            elif n.orelse and not (len(n.orelse) == 1 and isinstance(n.orelse[0], ast.If) and False):
+                n.test, n.body, n.orelse = _neg(n.test), n.orelse, n.body
+                n_t += 1
+    # guard clauses: `if not c: <terminal>;  REST`  ->  `if c: REST else: <terminal>` when the inventory tests c
+    changed = True
+    while changed and kt:
+        changed = False
+        for owner in [node] + [n for n in _own(node) if not isinstance(n, (ast.FunctionDef, ast.AsyncFunctionDef, ast.ClassDef))]:
+            for fld in ('body', 'orelse', 'finalbody'):
+                blk = getattr(owner, fld, None)
+                if not (isinstance(blk, list) and blk and isinstance(blk[0], ast.stmt)):
+                    continue
+                for i, st in enumerate(blk):
+                    if isinstance(st, ast.If) and not st.orelse and i + 1 < len(blk) and st.body and isinstance(st.body[-1], (ast.Return, ast.Raise, ast.Continue, ast.Break)) \
+                            and _u(st.test) not in kt and _u(_neg(st.test)) in kt:
+                        rest = blk[i + 1:]
+                        st.test, st.orelse, st.body = _neg(st.test), st.body, rest
+                        del blk[i + 1:]
+                        n_t += 1
+                        changed = True
+                        break
+                if changed:
+                    break
+            if changed:
+                break
+    if n_c or n_t:
+        log.append(f'{q}: {n_c} comparison(s) re-oriented, {n_t} if/else restored to the inventory polarity')
 
 
 if __name__ == '__main__':
     import sys
     root = sys.argv[1] if len(sys.argv) > 1 else '/repo'
     t = build(root)
-    json.dump({'comment': 'locals of the inventory functions in order of first binding, with spelling-free binding signatures (kfv/localnames.py)',
-               'functions': t}, open(KNOWN, 'w'), indent=0, sort_keys=True)
+    json.dump({'comment': 'locals of the inventory functions in order of first binding, with spelling-free binding signatures; '
+                          'texts of branch tests and of ==/!= comparisons (kfv/localnames.py)',
+               'functions': t, 'tests': shapes.get('tests', {}), 'compares': shapes.get('compares', {}), 'private': shapes.get('private', {})},
+              open(KNOWN, 'w'), indent=0, sort_keys=True)
     print(f'{len(t)} functions, {sum(len(v) for v in t.values())} locals')
